@@ -21,7 +21,7 @@ CLAIMED = {
    text="TLC checks deadlock freedom and termination of the lock-level model for shard maps 1,2,3,distinct; contended behaviours (3 clients, blocked callers, store-triggered eviction over same-shard candidates, gated janitor) are replayed on both backends under a watchdog with goroutine wait-reason inspection.",
    note="liveness on the model; watchdog on the code",
    tech="TLA+ lock-level spec + TLC deadlock/liveness check + contended replays under a watchdog"),
- "C03": dict(cat="model_checking", ref="DESIGN.md 5 (C03), 3.2", text="TLC checks the freshness/labelling invariants of the Proxy spec over header forms x policies x time shifts; TLC-generated histories are replayed on the real proxy (scripted origin, shifted entry timestamps) and every exchange (HIT iff no origin contact while fresh, Age/ttl, forced contact once stale) is judged by TLC trace validation.", note="one tick = 10 s of header time, Age/ttl within the real seconds elapsed; 18 header forms incl. case, several lines, malformed dates; all four policy combinations sampled", tech="TLA+ spec + TLC exhaustive check + replay on the real proxy judged by TLC trace validation"),
+ "C03": dict(cat="model_checking", ref="DESIGN.md 5 (C03), 3.2", text="TLC checks the freshness/labelling invariants of the Proxy spec over header forms x policies x time shifts; TLC-generated histories are replayed on the real proxy (scripted origin, shifted entry timestamps) and every exchange (HIT iff no origin contact while fresh, Age/ttl, forced contact once stale) is judged by TLC trace validation.", note="one tick = 10 s of header time, Age/ttl within the real seconds elapsed; 19 header forms incl. case, several lines, malformed dates; all four policy combinations sampled", tech="TLA+ spec + TLC exhaustive check + replay on the real proxy judged by TLC trace validation"),
  "C04": dict(cat="model_checking", ref="DESIGN.md 5 (C04), 3.2", text="The spec's Storable table (in TLA+) decides which 200 GET responses enter the store under each policy; TLC checks StoredIsStorable; replayed histories compare, after every origin answer, what the real store holds (presence and version) with the spec and every later request's reuse/contact with the spec.", note="forms whose two directions of the property disagree (positive max-age + past Expires, Cache-Control without a listed directive) are accepted either way", tech="TLA+ spec + TLC exhaustive check + replay judged by TLC trace validation"),
  "C05": dict(cat="model_checking", ref="DESIGN.md 5 (C05), 3.2", text="TLC checks OneFetchPerFlight / FollowersAccounted / NoOrphanFollowers over all arrival orders, answers and disconnects of 3 clients; replayed histories hold the origin so that clients pile up in one flight, disconnect leaders and followers, and TLC judges the number of origin contacts, who waits, and every client's complete verified response; SlowReaders scenarios (K stalled readers of a 96 MiB body, cacheable or not) check that late-comers and the stalled clients themselves are served completely.", note="3 clients in the model and replays, up to 16 stalled readers in the SlowReaders scenarios; followers are observed by goroutine wait state inside singleflight", tech="TLA+ spec + TLC exhaustive check + replay judged by TLC trace validation"),
  "C06": dict(cat="model_checking", ref="DESIGN.md 5 (C06), 3.2", text="TLC explores revalidation histories (expiry, origin version/validator changes, 304/200/other answers); in replays the origin records the conditional headers it receives, classified against every validator it ever sent and against the client's own conditionals, and TLC judges them and the 304-renew / 200-replace / relay outcome.", note="a synthesised If-Modified-Since (store time) is accepted when the origin sent no Last-Modified", tech="TLA+ spec + TLC exhaustive check + replay judged by TLC trace validation"),
